@@ -50,6 +50,46 @@ type Run struct {
 	DenyFalse bool `json:"denyfalse"`
 	// Then: further renders on the SAME engine after its policy was replaced; each with its own expectation
 	Then []Phase `json:"then"`
+	// Foreign: other engines of the process (one made before, one after the engine under test) redefine these
+	// filter and function names for themselves; the engine under test has nothing to do with them
+	Foreign []string `json:"foreign"`
+	// DefaultPolicy: the policy installed is NewDefaultSecurityPolicy() as it comes
+	DefaultPolicy bool `json:"defaultpolicy"`
+	// Late: the engine reloads what has changed (auto-reload, a loader that reports time stamps); after the first render the
+	// loader starts failing for template Name (its Load and its time stamp query return the sentinel error) and the entry
+	// template is rendered again, with this expectation
+	Late *LatePhase `json:"late"`
+}
+
+type LatePhase struct {
+	Name string `json:"name"`
+	Ok   bool   `json:"ok"`
+	Out  []int  `json:"out"`
+	Err  string `json:"err"`
+}
+
+// lateLoader serves inner's templates with time stamp 1 until it is told to fail for one name
+type lateLoader struct {
+	inner  twig.Loader
+	name   string
+	active bool
+}
+
+func (l *lateLoader) Load(name string) (string, error) {
+	if l.active && name == l.name {
+		return "", errSentinel
+	}
+	return l.inner.Load(name)
+}
+func (l *lateLoader) Exists(name string) bool { return l.inner.Exists(name) }
+func (l *lateLoader) GetModifiedTime(name string) (int64, error) {
+	if l.active && name == l.name {
+		return 0, errSentinel
+	}
+	if !l.inner.Exists(name) {
+		return 0, fmt.Errorf("%w: %s", twig.ErrTemplateNotFound, name)
+	}
+	return 1, nil
 }
 
 // Phase: the engine's security policy is replaced (EnableSandbox, or the maps of the installed policy are
@@ -372,6 +412,20 @@ func renderRun(c *Case, r *Run, ctx map[string]interface{}) (o obs) {
 			o.counts[k] = int(atomic.LoadInt64(v))
 		}
 	}()
+	foreign := func() {
+		if len(r.Foreign) == 0 {
+			return
+		}
+		fe := twig.New()
+		for _, name := range r.Foreign {
+			fe.AddFilter(name, func(v interface{}, args ...interface{}) (interface{}, error) { return "foreign", nil })
+			fe.AddFunction(name, func(args ...interface{}) (interface{}, error) { return "foreign", nil })
+		}
+		fe.EnableSandbox(makePolicy(Cfg{}))
+		fe.RegisterString("foreign", "{{ 1 }}")
+		fe.Render("foreign", nil)
+	}
+	foreign()
 	e := twig.New()
 	if c.Cfg.SelfPanic {
 		panic("verif self-test panic")
@@ -398,7 +452,9 @@ func renderRun(c *Case, r *Run, ctx map[string]interface{}) (o obs) {
 		}
 	}
 	var installedPolicy *twig.DefaultSecurityPolicy
-	if c.Cfg.Sandbox {
+	if r.DefaultPolicy {
+		e.EnableSandbox(twig.NewDefaultSecurityPolicy())
+	} else if c.Cfg.Sandbox {
 		cfg1 := c.Cfg
 		cfg1.DenyFalse = cfg1.DenyFalse || r.DenyFalse
 		pol := makePolicy(cfg1)
@@ -420,13 +476,19 @@ func renderRun(c *Case, r *Run, ctx map[string]interface{}) (o obs) {
 		srcs[engineName(name)] = sourceOf(ps, r.Pads)
 	}
 	entry = engineName(entry)
+	var late *lateLoader
 	if c.Cfg.Loader || c.Cfg.FaultLoad != "" {
 		if c.Cfg.FrontLoader {
 			e.RegisterLoader(twig.NewArrayLoader(map[string]string{}))
 		}
 		var l twig.Loader = twig.NewArrayLoader(srcs)
 		if c.Cfg.FaultLoad != "" {
-			l = &faultLoader{inner: l, name: c.Cfg.FaultLoad}
+			l = &faultLoader{inner: l, name: engineName(c.Cfg.FaultLoad)}
+		}
+		if r.Late != nil {
+			late = &lateLoader{inner: l, name: engineName(r.Late.Name)}
+			l = late
+			e.SetAutoReload(true)
 		}
 		if c.Cfg.ChainLoader {
 			l = twig.NewChainLoader([]twig.Loader{twig.NewArrayLoader(map[string]string{}), l, twig.NewArrayLoader(map[string]string{})})
@@ -494,6 +556,7 @@ func renderRun(c *Case, r *Run, ctx map[string]interface{}) (o obs) {
 		}
 		return
 	}
+	foreign() // (a second one, made after the engine under test was set up)
 	out, err := renderOnce()
 	if err != nil {
 		o.kind = classify(err)
@@ -544,7 +607,7 @@ func renderRun(c *Case, r *Run, ctx map[string]interface{}) (o obs) {
 	for k, v := range st.counts {
 		firstCounts[k] = atomic.LoadInt64(v)
 	}
-	if len(r.Then) > 0 {
+	if len(r.Then) > 0 || r.Late != nil {
 		defer func() { // the case's own expectation is about the first render
 			for _, v := range st.counts {
 				atomic.StoreInt64(v, 0)
@@ -600,6 +663,23 @@ func renderRun(c *Case, r *Run, ctx map[string]interface{}) (o obs) {
 		if diff != "" {
 			o.ok, o.kind, o.errMsg = false, "phase-differs", fmt.Sprintf("phase %d after a policy change: %s", pi+1, diff)
 			break
+		}
+	}
+	if late != nil && o.ok {
+		late.active = true
+		out2, err2 := renderOnce()
+		diff := ""
+		if (err2 == nil) != r.Late.Ok {
+			diff = fmt.Sprintf("ok=%v (%v) %q, want ok=%v", err2 == nil, err2, out2, r.Late.Ok)
+		} else if r.Late.Ok && out2 != textOf(r.Late.Out, nil, false) {
+			diff = fmt.Sprintf("output %q, want %q", out2, textOf(r.Late.Out, nil, false))
+		} else if !r.Late.Ok && !errMatches(r.Late.Err, classify(err2)) {
+			diff = fmt.Sprintf("error kind %s (%v), want %s", classify(err2), err2, r.Late.Err)
+		} else if !r.Late.Ok && out2 != "" {
+			diff = fmt.Sprintf("output %q returned together with an error", out2)
+		}
+		if diff != "" {
+			o.ok, o.kind, o.errMsg = false, "phase-differs", "after the loader began to fail for "+r.Late.Name+": "+diff
 		}
 	}
 	if r.Probe {
